@@ -7,6 +7,7 @@ import (
 	"os"
 	"path/filepath"
 	"runtime"
+	"runtime/pprof"
 	"sort"
 	"strconv"
 	"strings"
@@ -351,6 +352,11 @@ func runCase() {
 	tier := os.Args[5]
 	seed, _ := strconv.ParseInt(os.Getenv("VERIF_SEED"), 10, 64)
 	res := &caseResult{Kind: kind, Index: idx, Counters: map[string]int{}}
+	if pf := os.Getenv("VERIF_CPUPROFILE"); pf != "" {
+		f, _ := os.Create(pf)
+		_ = pprof.StartCPUProfile(f)
+		defer pprof.StopCPUProfile()
+	}
 	switch kind {
 	case "conc":
 		caseConc(res, idx, dir, seed, tier)
